@@ -59,6 +59,27 @@ def run(ctx: core.Ctx) -> None:
             ctx.mismatch(mm['key'], {'module': 'MultiSolve', 'direction': 'spec->code', **mm})
     for rec in recs[:: max(1, len(recs) // 3)][:3]:
         ctx.sample(rec)
+    # code -> spec: solve() calls of the repository's tests and of random parser-built models, validated by MultiSolveTrace.tla
+    from . import solver_common as sc
+    from .. import trace_multisolve as tm, trace_solver as ts
+    core.sany('MultiSolveTrace')
+    files = [sc.record_suite(ctx, ['tests/test_core.py', 'tests/test_extensions.py', '-k', 'olve'], 'suite')]
+    files += sc.record_driver(ctx, 'harness.drive_models', [{'seed': 500 + ctx.seed * 100 + i, 'runs': 60 if quick else 800} for i in range(core.NCPU)], 'models')
+    episodes = []
+    for f in files:
+        episodes += tm.split_episodes(ts.read_events(f))
+    if not episodes:
+        raise core.MachineryError('no solve() episodes recorded')
+    acc, rej, stats, tot = tm.validate(episodes, 'C05-trace')
+    ctx.traces_validated += acc
+    ctx.states += tot['states']
+    ctx.transitions += tot['generated']
+    ctx.extra['traces'] = {'episodes': len(episodes), 'accepted': acc, 'rejected': len(rej), 'stats': stats}
+    for r in rej:
+        ex = r['abstract'][-1]
+        ctx.mismatch(f"solve-trace-rejected exit={ex.get('kind')} violated={r['result'].get('violated')}",
+                     {'module': 'MultiSolveTrace', 'direction': 'code->spec', 'result': r['result'], 'abstract_episode': r['abstract'], 'raw_episode': r['raw'][:40]})
+    ctx.sample({'solve_trace_episode': [e for e in episodes[len(episodes) // 2][:6]]})
     ctx.assumptions += ['per-period outcomes are the terminal summaries of Solver.tla (checked separately under C02/C06)',
                         'spans carry distinct labels; spans shorter than LAGS+LEADS+1 are outside the quantifier']
 
